@@ -85,6 +85,19 @@ impl<'a> SendTransactionsProofProcess<'a> {
             }
         }
 
+        // The request was sent before the stored tip was replaced by a fork: the response is a
+        // valid proof for the abandoned branch.
+        if self.protocol.is_replaced_header(last_header.header()) {
+            debug!(
+                "peer {} send a proof for a last state which is not in the stored chain",
+                self.peer_index
+            );
+            self.protocol
+                .peers()
+                .mark_fetching_txs_timeout(self.peer_index);
+            return Status::ok();
+        }
+
         let filtered_blocks: Vec<packed::FilteredBlock> = self
             .message
             .filtered_blocks()
